@@ -110,7 +110,8 @@ class HarnessRun:
             path = os.path.join(self.dir, "w%d.jsonl" % i)
             if not os.path.exists(path):
                 continue
-            enum_w = 0
+            last = {}      # pid -> last stat line (cumulative for that process)
+            order = []
             for line in open(path, errors="replace"):
                 try:
                     r = json.loads(line)
@@ -118,27 +119,47 @@ class HarnessRun:
                     continue
                 t = r.get("t")
                 if t == "stat":
-                    res["executed"] += r["executed"]
-                    enum_w = max(enum_w, r["enumerated"])
-                    res["stopped"] |= r["stopped"]
-                    for k, v in r["cnt"].items():
-                        res["cnt"][k] = res["cnt"].get(k, 0) + v
-                    for k, v in r["classes"].items():
-                        res["classes"].setdefault(k, set()).update(v)
-                elif t == "phase":
-                    ph = res["phases"].setdefault(r["name"], {"cases": 0, "executed": 0, "complete": True})
-                    ph["cases"] = max(ph["cases"], r["cases"])
-                    ph["executed"] += r["executed"]
-                    ph["complete"] &= r["complete"]
+                    if r["pid"] not in last:
+                        order.append(r["pid"])
+                    last[r["pid"]] = r
                 elif t == "sample":
                     res["samples"].append(r)
                 elif t == "viol":
                     res["viol"].append(r)
-            res["enumerated"] = max(res["enumerated"], enum_w)
+            if not order:
+                continue
+            final = last[order[-1]]          # the process that reached the end of the enumeration (or the deadline)
+            res["stopped"] |= final["stopped"] or not final["final"]
+            res["enumerated"] = max(res["enumerated"], final["enumerated"])
+            for pid in order:
+                r = last[pid]
+                res["executed"] += r["executed"]
+                for k, v in r["cnt"].items():
+                    res["cnt"][k] = res["cnt"].get(k, 0) + v
+                for k, v in r["classes"].items():
+                    res["classes"].setdefault(k, set()).update(v)
+                for ph in r["phases"]:
+                    d = res["phases"].setdefault(ph["name"], {"cases": 0, "executed": 0, "complete": True, "_w": set()})
+                    d["executed"] += ph["executed"]
+                    d["cases"] = max(d["cases"], ph["cases"])
+            # cases / completeness come from the last process of each worker (it enumerated everything up to its end)
+            seen = set()
+            for ph in final["phases"]:
+                d = res["phases"].setdefault(ph["name"], {"cases": 0, "executed": 0, "complete": True, "_w": set()})
+                d["cases"] = max(d["cases"], ph["cases"])
+                d["complete"] &= ph["complete"]
+                seen.add(ph["name"])
+            res.setdefault("_seen", []).append(seen)
+        # a phase that some worker never reached is incomplete
+        for name, d in res["phases"].items():
+            d.pop("_w", None)
+            for seen in res.get("_seen", []):
+                if name not in seen:
+                    d["complete"] = False
+        res.pop("_seen", None)
+        if "deadline_hit" in res["cnt"]:
+            res["cnt"]["deadline_hit"] = 1
         res["classes"] = {k: sorted(v) for k, v in res["classes"].items()}
-        # restarted workers write several stat lines; 'executed' sums are right because each
-        # process counts only what it ran.  A restarted shard re-enumerates, so 'enumerated'
-        # is a max, not a sum.
         return res
 
     def replay_one(self, only, env_extra=None):
